@@ -25,6 +25,8 @@ def run_case(run, drv, files, pl, single, tag):
                 run.fail("impl-vs-spec", dict(case, creator=kind), {"raised": repr(exc)})
                 continue
             meta = impl.decode(raw)
+            cr.ask_createfull(drv, ("createfull", dict(case, creator=kind), raw), kind, files, pl,
+                              single, name, raw)
             why = cr.check_hybrid_view(meta, files, pl, single, name) or \
                 cr.check_v2_view(meta, files, pl, single, name)
             if why:
